@@ -470,7 +470,7 @@ func TestC14_Range(t *testing.T) {
 	observeOnce()
 	h.MarkExhaustive("planted-scalars")
 	h.Sweep(t, h.P{Name: "planted-scalars"}, func(emit func(rangeCase)) {
-		for _, seed := range keySeeds(h.Scale(2, 12)) {
+		for _, seed := range keySeeds(h.Scale(2, 60)) {
 			for _, tg := range rangeTargets {
 				for _, sc := range rangeScalars {
 					emit(rangeCase{tg, sc, seed})
